@@ -320,6 +320,11 @@ def run_session(r, fe, framer, hostile_kinds, tier, trunc_fc=None, wd=None, boun
                 out["ladder"].append(Case(term, desc, kind="%s/%s/%s" % (fe, framer, kind),
                                           nontrivial=bool(obs.pip_calls),
                                           key=(fe, framer, desc["chunk"], tuple(steps[-4:]))))
+                if obs.eof_spin:
+                    out["py"].append({"what": "the handler keeps reading a connection its peer has closed: handle() never "
+                                              "returns (stopped after 64 empty reads)", "fe": fe, "framer": framer,
+                                      "ctx": spec, "cfg": cfg, "script": list(script)})
+                    break
                 out.setdefault("steps", []).append((obs.delivered, obs.store_changed))
                 if obs.escaped is not None:
                     out["escaped_seen"] = True
@@ -523,11 +528,149 @@ def build(tier):
     return _CACHE[tier]
 
 
+# ----------------------------------------------------------------------------- constructor wiring
+
+FLAG_DEFAULT = {"ignore_missing_slaves": "IgnoreMissingSlaves", "broadcast_enable": "broadcast_enable"}
+
+
+def construct_server(name, given):
+    """build the REAL server class `name` (loopback port 0 / patched serial port / unawaited asyncio
+    factory — nothing is served) with marker arguments (given) or with nothing; -> {role: (obs_given, obs_default)}"""
+    import asyncio
+    import ssl
+    from pymodbus.constants import Defaults
+    from pymodbus.datastore import ModbusServerContext
+    from pymodbus.device import ModbusDeviceIdentification
+    from pymodbus.server import sync as S, async_io as A, asynchronous as T
+    from pymodbus.transaction import ModbusRtuFramer
+    control = L.reset_control()
+    ctx = L.make_context({"single": True, "units": [0], "size": 4})
+    mod, cls = name.split(".")
+    M = {"sync": S, "async_io": A, "asynchronous": T}[mod]
+
+    class MarkFramer(ModbusRtuFramer):
+        pass
+    base_handler = {"sync.ModbusTcpServer": S.ModbusConnectedRequestHandler, "sync.ModbusTlsServer": S.ModbusConnectedRequestHandler,
+                    "sync.ModbusUdpServer": S.ModbusDisconnectedRequestHandler,
+                    "async_io.ModbusTcpServer": A.ModbusConnectedRequestHandler, "async_io.ModbusTlsServer": A.ModbusConnectedRequestHandler,
+                    "async_io.ModbusUdpServer": A.ModbusDisconnectedRequestHandler}.get(name)
+    MarkHandler = type("MarkHandler", (base_handler,), {}) if base_handler else None
+    # ModbusDeviceIdentification keeps its data in a CLASS-level dict shared by all instances, so whether
+    # the identity was handed on cannot be seen in the values: the update() call itself is recorded
+    updates = []
+    orig_update = ModbusDeviceIdentification.update
+    ModbusDeviceIdentification.update = lambda self, value: (updates.append(value), orig_update(self, value))[1]
+    ident = ModbusDeviceIdentification() if given else None
+    kw = {}
+    if given:
+        kw = dict(framer=MarkFramer, identity=ident, ignore_missing_slaves=True)
+        if mod != "asynchronous":
+            kw["broadcast_enable"] = True
+        if MarkHandler is not None:
+            kw["handler"] = MarkHandler
+    loop = None
+    old_serial = S.serial.Serial
+    srv = None
+    try:
+        if mod == "sync" and cls == "ModbusSerialServer":
+            class FakeSerial:
+                def __init__(self, **k):
+                    pass
+
+                def write(self, b):
+                    return len(b)
+
+                def read(self, n):
+                    return b""
+
+                def close(self):
+                    pass
+            S.serial.Serial = FakeSerial
+            srv = M.ModbusSerialServer(ctx if given else None, port="verif", **kw)
+        elif mod == "sync":
+            if cls == "ModbusTlsServer":
+                kw["sslctx"] = ssl.SSLContext(ssl.PROTOCOL_TLS_SERVER)
+            srv = getattr(M, cls)(ctx if given else None, address=("127.0.0.1", 0), **kw)
+        elif mod == "async_io":
+            loop = asyncio.new_event_loop()
+            # (Python 3.12 no longer accepts reuse_address= in create_datagram_endpoint: the call the
+            #  constructor makes is stubbed, the endpoint is never opened here anyway)
+            loop.create_datagram_endpoint = lambda *a, **k: None
+            if cls == "ModbusTlsServer":
+                kw["sslctx"] = ssl.SSLContext(ssl.PROTOCOL_TLS_SERVER)
+            srv = getattr(M, cls)(ctx if given else None, address=("127.0.0.1", 0), loop=loop, **kw)
+        else:
+            srv = getattr(M, cls)(ctx if given else None, **kw)
+        obs = {}
+        c = getattr(srv, "context", None) if mod != "asynchronous" else getattr(srv, "store", None)
+        obs["context"] = (c is ctx, "ModbusServerContext()" if isinstance(c, ModbusServerContext) and c is not ctx else repr(type(c)))
+        f = srv.framer
+        if name == "asynchronous.ModbusUdpProtocol":
+            obs["framer"] = (isinstance(f, MarkFramer), type(f).__name__)
+        else:
+            obs["framer"] = (f is MarkFramer, getattr(f, "__name__", repr(f)))
+        if mod != "asynchronous":
+            h = srv.handler
+            if cls == "ModbusSerialServer":
+                ok = h is not None and h.server is srv and type(h.framer) is (MarkFramer if given else type(h.framer))
+                obs["handler"] = (False, type(h).__name__ if ok else "broken:" + repr(h))
+            else:
+                installed = (getattr(srv, "RequestHandlerClass", h) is h)
+                owner_ok = (mod != "async_io" or cls == "ModbusUdpServer" or getattr(h, "server", None) is srv)
+                obs["handler"] = (h is MarkHandler and installed and owner_ok,
+                                  h.__name__ if installed and owner_ok else "not-installed")
+        for flag, dname in FLAG_DEFAULT.items():
+            if flag == "broadcast_enable" and mod == "asynchronous":
+                continue
+            v = getattr(srv, flag, "MISSING")
+            obs[flag] = (v is True, "Defaults." + dname if v == getattr(Defaults, dname) and v is not True else repr(v))
+        obs["identity"] = (given and any(v is ident for v in updates), "no update" if not updates else "updated")
+        return obs
+    finally:
+        S.serial.Serial = old_serial
+        ModbusDeviceIdentification.update = orig_update
+        try:
+            if mod == "sync" and cls != "ModbusSerialServer" and srv is not None:
+                srv.server_close()
+            if mod == "async_io" and srv is not None and srv.server_factory is not None:
+                srv.server_factory.close()
+            if loop is not None:
+                loop.close()
+        except Exception:  # noqa: BLE001
+            pass
+        L.reset_control()
+
+
+SERVER_CLASSES = ["sync.ModbusSerialServer", "sync.ModbusTcpServer", "sync.ModbusTlsServer", "sync.ModbusUdpServer",
+                  "async_io.ModbusTcpServer", "async_io.ModbusTlsServer", "async_io.ModbusUdpServer",
+                  "asynchronous.ModbusServerFactory", "asynchronous.ModbusUdpProtocol"]
+
+
+def wiring_cases():
+    from lib.coqrun import string
+    cases = []
+    for name in SERVER_CLASSES:
+        for given in (True, False):
+            try:
+                obs = construct_server(name, given)
+            except Exception as e:  # noqa: BLE001 — a constructor that no longer works is reported case by case
+                obs = {r: (False, "constructor raised %s" % type(e).__name__) for r in
+                       ("context", "framer", "ignore_missing_slaves", "identity")}
+            for role, (og, od) in sorted(obs.items()):
+                g = given and not (name == "sync.ModbusSerialServer" and role == "handler")
+                term = "{| wc_server := %s; wc_role := %s; wc_given := %s; wc_obs_given := %s; wc_obs_default := %s |}" % (
+                    string(name), string(role), boolean(g), boolean(og), string(od))
+                cases.append(Case(term, {"server": name, "role": role, "given": g, "observed_is_given": og, "observed": od},
+                                  kind="wiring/%s" % name, nontrivial=True))
+    return cases
+
+
 def suites(tier):
     ladder, store, probe, _, _ = build(tier)
     return [Suite("ladder", IMPORTS, "chk_ladder code", ladder, shard=250),
             Suite("store", IMPORTS, "chk_store", store, shard=40),
-            Suite("probe", IMPORTS, "chk_probe", probe, shard=100)]
+            Suite("probe", IMPORTS, "chk_probe", probe, shard=100),
+            Suite("wiring", IMPORTS, "chk_wiring server_wiring", wiring_cases(), shard=200)]
 
 
 def extra_checks(tier):
